@@ -15,7 +15,7 @@
 //               +, comparisons), bool, string / []byte (List UInt8), []string (List (List UInt8)), error
 //               (String: "" = nil, "errorf" = fmt.Errorf(..), otherwise the name of the package-level error value), pointer-to-struct parameters (a Bool "is nil" plus
 //               one parameter per field read)
-//   statements  x := e, x = e, x op= e, var x T, if/else with early return, return, calls into the
+//   statements  x := e, x = e, x op= e, x++, x--, var x T, if/else with early return, return, calls into the
 //               logging package (dropped), `a, b := recv.Pure()` whose results are used by logging only
 //   receiver    every field read is a parameter; every field assigned is returned after the results
 //   expressions constants (folded by go/types), + - * / % & | (constant non-zero divisors only),
@@ -527,6 +527,16 @@ func (t *tr) stmts(ss []ast.Stmt, used map[string]int, ind string) string {
 			}
 		}
 	}
+	if ids, ok := s.(*ast.IncDecStmt); ok {
+		// x++ / x-- is x += 1 / x -= 1
+		tok := token.ADD_ASSIGN
+		if ids.Tok == token.DEC {
+			tok = token.SUB_ASSIGN
+		}
+		one := &ast.BasicLit{Kind: token.INT, Value: "1"}
+		t.info.Types[one] = types.TypeAndValue{Type: types.Typ[types.UntypedInt], Value: constant.MakeInt64(1)}
+		s = &ast.AssignStmt{Lhs: []ast.Expr{ids.X}, Tok: tok, Rhs: []ast.Expr{one}}
+	}
 	switch x := s.(type) {
 	case *ast.ReturnStmt:
 		var vals []string
@@ -747,8 +757,12 @@ func translate(repo string, tg target) (string, error) {
 				}
 			}
 		}
-		if _, ok := n.(*ast.IncDecStmt); ok {
-			t.fail(n, "++/--")
+		if ids, ok := n.(*ast.IncDecStmt); ok {
+			if sel, ok := ids.X.(*ast.SelectorExpr); ok {
+				if nm, ok := t.selName(sel); ok {
+					mut[nm] = true
+				}
+			}
 		}
 		return true
 	}
